@@ -99,6 +99,56 @@ PROPS = {
         level_text="Generated search against an independent segment-cutting reference under 32 configurations. Exploration only.",
         level_note="trusts the reference cutter in prop_C05.cpp and oracle.hpp, g++, rapidcheck",
     ),
+    "C10": dict(
+        engine="libFuzzer + rapidcheck",
+        level="fault_enumeration",
+        bins={
+            "main": dict(tc="asan", src="prop_C10.cpp", variants=["plain"]),
+            "fuzz_bool": dict(tc="fuzz", src="fuzz_targets.cpp", variants=["plain"], flags=["-DFUZZ_TARGET=1"], libs=[]),
+            "fuzz_bool_z": dict(tc="fuzz", src="fuzz_targets.cpp", variants=["z"], flags=["-DFUZZ_TARGET=1"], libs=[]),
+            "fuzz_bool_big": dict(tc="fuzzbig", src="fuzz_targets.cpp", variants=["plain"], flags=["-DFUZZ_TARGET=1", "-DFUZZ_BIG"], libs=[]),
+            "fuzz_offset": dict(tc="fuzz", src="fuzz_targets.cpp", variants=["plain"], flags=["-DFUZZ_TARGET=2"], libs=[]),
+            "fuzz_offset_z": dict(tc="fuzz", src="fuzz_targets.cpp", variants=["z"], flags=["-DFUZZ_TARGET=2"], libs=[]),
+            "fuzz_offset_big": dict(tc="fuzzbig", src="fuzz_targets.cpp", variants=["plain"], flags=["-DFUZZ_TARGET=2", "-DFUZZ_BIG"], libs=[]),
+            "fuzz_rect": dict(tc="fuzz", src="fuzz_targets.cpp", variants=["plain"], flags=["-DFUZZ_TARGET=3"], libs=[]),
+            "fuzz_rect_big": dict(tc="fuzzbig", src="fuzz_targets.cpp", variants=["plain"], flags=["-DFUZZ_TARGET=3", "-DFUZZ_BIG"], libs=[]),
+            "fuzz_misc": dict(tc="fuzz", src="fuzz_targets.cpp", variants=["plain"], flags=["-DFUZZ_TARGET=4"], libs=[]),
+            "fuzz_misc_big": dict(tc="fuzzbig", src="fuzz_targets.cpp", variants=["plain"], flags=["-DFUZZ_TARGET=4", "-DFUZZ_BIG"], libs=[]),
+        },
+        parts=[
+            dict(name="deg", bin="main", workers={Q: 2, T: 2}, cases={Q: 6000, T: 300000}),
+            dict(name="allocfail", bin="main", workers={Q: 2, T: 3}, cases={Q: 300, T: 12000}),
+            dict(name="fuzz_bool", kind="fuzz", bin="fuzz_bool", workers={Q: 3, T: 3}, seconds={Q: 45, T: 900}),
+            dict(name="fuzz_bool_z", kind="fuzz", bin="fuzz_bool_z", corpus="fuzz_bool", workers={Q: 1, T: 1}, seconds={Q: 45, T: 900}),
+            dict(name="fuzz_bool_big", kind="fuzz", bin="fuzz_bool_big", corpus="fuzz_bool", workers={Q: 2, T: 2}, seconds={Q: 45, T: 900}),
+            dict(name="fuzz_offset", kind="fuzz", bin="fuzz_offset", workers={Q: 1, T: 1}, seconds={Q: 45, T: 900}),
+            dict(name="fuzz_offset_z", kind="fuzz", bin="fuzz_offset_z", corpus="fuzz_offset", workers={Q: 1, T: 1}, seconds={Q: 45, T: 900}),
+            dict(name="fuzz_offset_big", kind="fuzz", bin="fuzz_offset_big", corpus="fuzz_offset", workers={Q: 1, T: 1}, seconds={Q: 45, T: 900}),
+            dict(name="fuzz_rect", kind="fuzz", bin="fuzz_rect", workers={Q: 1, T: 1}, seconds={Q: 45, T: 900}),
+            dict(name="fuzz_rect_big", kind="fuzz", bin="fuzz_rect_big", corpus="fuzz_rect", workers={Q: 1, T: 1}, seconds={Q: 45, T: 900}),
+            dict(name="fuzz_misc", kind="fuzz", bin="fuzz_misc", workers={Q: 1, T: 1}, seconds={Q: 45, T: 900}),
+            dict(name="fuzz_misc_big", kind="fuzz", bin="fuzz_misc_big", corpus="fuzz_misc", workers={Q: 1, T: 1}, seconds={Q: 45, T: 900}),
+        ],
+        rule=("(a) coverage-guided libFuzzer campaigns (ASan+UBSan+LSan, libstdc++ assertions and vector annotations) over "
+              "structure-aware decoders for boolean clipping (Clipper64/ClipperD, paths/polytree, open paths, options, Clear, "
+              "ReuseableDataContainer64; plain, USINGZ and a build for magnitudes up to 2^62 without the overflow checks), "
+              "offsetting (groups, all join/end types, delta callback, polytree, reuse), rectangle clipping and "
+              "Minkowski/utilities, with the structural/Execute-success/NoClip oracles inside the targets; evaluations = "
+              "executions, non-trivial = a corpus unit (coverage-distinct input) that produced a non-empty result; (b) "
+              "rapidcheck over degenerate structured inputs through 12 operation families; (c) allocation-failure "
+              "enumeration: for each generated small case the k-th allocation inside the operation throws std::bad_alloc "
+              "for EVERY k (400 stratified k when an operation allocates more than 400 times) - the exception must reach "
+              "the caller and all objects must destruct cleanly under ASan; non-trivial = operation with >= 10 allocations"),
+        assumptions=["NaN/inf parameters, |delta| > 2^20 and coordinates beyond the stated magnitudes are not generated",
+                     "signed-overflow/float-cast checks are off in the *_big builds (the property promises overflow-free arithmetic only up to 2^29)",
+                     "leaks on the allocation-failure path are not judged (LSan off in the injector binary)",
+                     "a hang is > 60 s CPU on an input of <= 600 bytes, confirmed 3 times; slow-unit/oom artifacts are load noise"],
+        technique="coverage-guided fuzzing (libFuzzer + ASan/UBSan/LSan) with semantic oracles in the targets + rapidcheck + exhaustive single-allocation-failure injection",
+        level_text=("Fuzzing and fault enumeration: every single allocation point of each generated operation is failed once "
+                    "(fault_enumeration for the bad_alloc clause); the rest is sanitizer-backed coverage-guided exploration."),
+        level_note="trusts ASan/UBSan/LSan, libFuzzer, the replaced operator new in prop_C10.cpp",
+        env={"ASAN_OPTIONS_EXTRA": "detect_leaks=0:alloc_dealloc_mismatch=0"},
+    ),
     "C02": dict(
         bins={"main": dict(tc="gcc", src="prop_C02.cpp", variants=["plain"])},
         parts=[
